@@ -63,42 +63,68 @@ def _jacc(a, b):
     return len(a & b) / float(len(a | b))
 
 
+def _wjacc(a, b, wa, wb):
+    """Jaccard similarity of two name sets in which the names of `wa` (gone from the tree) and `wb` (new in the tree) are
+    anonymous: k gone names on one side match k new names on the other"""
+    a0, b0 = a - wa, b - wb
+    na, nb = len(a & wa), len(b & wb)
+    inter = len(a0 & b0) + min(na, nb)
+    union = len(a0 | b0) + max(na, nb)
+    return 1.0 if union == 0 else inter / float(union)
+
+
 def recover_renames(prog, table):
     """A function of the reference tree that is gone while a function the reference tree does not have sits in the same
     class/module, has the same kind and arity, is mentioned by the same functions and mentions the same functions: the same
     function under a new name.  The new name is mapped back to the reference name everywhere (definition, attribute and name
     references), so the rules - which are anchored in the reference names - find it.  Only an unambiguous best match is
-    taken; anything else is left alone (the rules then report the vanished anchor as an analysis error, exit 2).
+    taken; matching is repeated until nothing more is found (a renamed caller of a renamed function is recognised once one of
+    the two is); anything else is left alone (the rules then report the vanished anchor as an analysis error, exit 2).
     Names are not semantics: whatever is matched is still analysed by its body."""
+    out = []
+    for _ in range(8):
+        got = _recover_renames_once(prog, table)
+        if not got:
+            break
+        out += got
+        prog.reindex()
+    return out
+
+
+def _recover_renames_once(prog, table):
     known = set(table['functions'])
     sigs, krefs, kinds = table.get('signatures', {}), table.get('refs', {}), table.get('kinds', {})
     if not krefs or not kinds:
         return []
-    missing = [q for q in sorted(known) if q not in prog.functions and q.rsplit('.', 1)[0] in
-               set(list(prog.classes) + list(prog.modules))]
+    holders = set(list(prog.classes) + list(prog.modules))
+    missing = [q for q in sorted(known) if q not in prog.functions and q.rsplit('.', 1)[0] in holders]
     new = [q for q in sorted(prog.functions) if q not in known and not (q.rsplit('.', 1)[1].startswith('__'))]
     if not missing or not new:
         return []
     defined = {}
     for q in prog.functions:
         defined.setdefault(q.rsplit('.', 1)[1], []).append(q)
-    mentioned_attr = set()
+    mentioned = set()
     for m in prog.modules.values():
         for x in ast.walk(m.tree):
             if isinstance(x, ast.Attribute):
-                mentioned_attr.add(x.attr)
+                mentioned.add(x.attr)
             elif isinstance(x, ast.Name):
-                mentioned_attr.add(x.id)
+                mentioned.add(x.id)
     names_now = {q.rsplit('.', 1)[1] for q in prog.functions}
     names_ref = {q.rsplit('.', 1)[1] for q in known}
     refs_now = function_refs(prog, names_now | names_ref)
-    # who mentions whom, by last name component, in both trees
+    refs_ref = krefs_sets(krefs)
+    gone_names = {q.rsplit('.', 1)[1] for q in missing}
+    new_names = {q.rsplit('.', 1)[1] for q in new}
+    gone_quals, new_quals = set(missing), set(new)
+
     def mentioners(refs, name, exclude):
         return {q for q, r in refs.items() if name in r and q != exclude}
     pairs = []
     for mq in missing:
         holder, mname = mq.rsplit('.', 1)
-        if mname in mentioned_attr or mname in defined:
+        if mname in mentioned or mname in defined:
             continue        # the reference name is still in use for something: not a plain rename
         msig = sigs.get(mq)
         for nq in new:
@@ -112,15 +138,12 @@ def recover_renames(prog, table):
                 k = msig.index('*')
                 if len(fi.params) != k or len(fi.kwonly) != len(msig) - k - 1:
                     continue
-            callers_ref = {q for q in mentioners(krefs_sets(krefs), mname, mq)}
-            callers_now = {q for q in mentioners(refs_now, nname, nq)}
-            callees_ref = set(krefs.get(mq, ())) - {mname}
-            callees_now = {n for n in refs_now.get(nq, ()) if n in names_ref} - {nname}
-            score = _jacc(callers_ref, callers_now) + _jacc(callees_ref, callees_now)
-            pairs.append((score, mq, nq))
+            s1 = _wjacc(mentioners(refs_ref, mname, mq), mentioners(refs_now, nname, nq), gone_quals, new_quals)
+            s2 = _wjacc(set(refs_ref.get(mq, ())) - {mname}, set(refs_now.get(nq, ())) - {nname}, gone_names, new_names)
+            pairs.append((s1 + s2, mq, nq))
     pairs.sort(reverse=True)
     done_m, done_n, out = set(), set(), []
-    for i, (score, mq, nq) in enumerate(pairs):
+    for score, mq, nq in pairs:
         if mq in done_m or nq in done_n:
             continue
         rivals = [s2 for s2, m2, n2 in pairs if (m2 == mq) != (n2 == nq) and m2 not in done_m and n2 not in done_n]
@@ -139,6 +162,149 @@ def recover_renames(prog, table):
                     x.id = old
                 elif isinstance(x, (ast.FunctionDef, ast.AsyncFunctionDef)) and x.name == newn:
                     x.name = old
+    return out
+
+
+def identifier_mentions(prog):
+    """(mentions, vocabulary): for every identifier the program itself defines (an attribute that is stored somewhere, a name
+    bound in a class body or at module level - functions excluded) the set of places that mention it, as 'location|S' (stored)
+    or 'location|L' (read), where location is the enclosing function, class body or module; and every identifier that occurs
+    in the program at all"""
+    where = {}
+    vocab = set()
+    defined = set()
+    fnames = {q.rsplit('.', 1)[1] for q in prog.functions}
+
+    def scan(node, loc):
+        for x in ast.iter_child_nodes(node):
+            if isinstance(x, (ast.FunctionDef, ast.AsyncFunctionDef)):
+                vocab.add(x.name)
+                scan(x, loc_of.get(id(x), loc + '.' + x.name))
+                continue
+            if isinstance(x, ast.ClassDef):
+                vocab.add(x.name)
+                for st in x.body:
+                    if isinstance(st, ast.Assign):
+                        for t in st.targets:
+                            if isinstance(t, ast.Name):
+                                defined.add(t.id)
+                scan(x, 'class:' + x.name)
+                continue
+            if isinstance(x, ast.Attribute):
+                vocab.add(x.attr)
+                c = 'S' if isinstance(x.ctx, (ast.Store, ast.Del)) else 'L'
+                if c == 'S':
+                    defined.add(x.attr)
+                where.setdefault(x.attr, set()).add(loc + '|' + c)
+            elif isinstance(x, ast.Name):
+                vocab.add(x.id)
+                c = 'S' if isinstance(x.ctx, (ast.Store, ast.Del)) else 'L'
+                where.setdefault(x.id, set()).add(loc + '|' + c)
+            elif isinstance(x, ast.keyword) and x.arg:
+                vocab.add(x.arg)
+            elif isinstance(x, ast.arg):
+                vocab.add(x.arg)
+            scan(x, loc)
+    loc_of = {id(fi.node): q for q, fi in prog.functions.items()}
+    for m in prog.modules.values():
+        for st in m.tree.body:
+            if isinstance(st, ast.Assign):
+                for t in st.targets:
+                    if isinstance(t, ast.Name):
+                        defined.add(t.id)
+        scan(m.tree, 'module:' + m.name)
+    return {k: v for k, v in where.items() if k in defined and k not in fnames}, vocab
+
+
+def recover_identifier_renames(prog, table):
+    """The same idea as recover_renames for attributes and class/module-level names the program defines: an identifier of the
+    reference tree that occurs nowhere any more, and an identifier the reference tree does not contain at all that is stored and
+    read in the same functions: the same thing under a new name - mapped back, everywhere."""
+    ref = table.get('mentions')
+    vocab_ref = set(table.get('vocabulary', ()))
+    if not ref or not vocab_ref:
+        return []
+    now, vocab_now = identifier_mentions(prog)
+    missing = [k for k in sorted(ref) if k not in vocab_now]
+    new = [k for k in sorted(now) if k not in vocab_ref]
+    if not missing or not new:
+        return []
+    pairs = []
+    for m in missing:
+        sm = set(ref[m])
+        for n in new:
+            sn = now[n]
+            if any(x.endswith('|S') for x in sm & sn) or not any(x.endswith('|S') for x in sm):
+                pairs.append((_jacc(sm, sn), m, n))
+    pairs.sort(reverse=True)
+    out, dm, dn = [], set(), set()
+    for score, m, n in pairs:
+        if m in dm or n in dn:
+            continue
+        rivals = [s2 for s2, m2, n2 in pairs if (m2 == m) != (n2 == n) and m2 not in dm and n2 not in dn]
+        if score < 0.7 or (rivals and max(rivals) > score - 0.2):
+            continue
+        dm.add(m)
+        dn.add(n)
+        out.append({'reference_name': m, 'found_as': n, 'score': round(score, 2)})
+    for r in out:
+        old, newn = r['reference_name'], r['found_as']
+        for mod in prog.modules.values():
+            for x in ast.walk(mod.tree):
+                if isinstance(x, ast.Attribute) and x.attr == newn:
+                    x.attr = old
+                elif isinstance(x, ast.Name) and x.id == newn:
+                    x.id = old
+                elif isinstance(x, (ast.keyword, ast.arg)) and x.arg == newn:
+                    x.arg = old
+    return out
+
+
+def recover_parameter_renames(prog, table):
+    """A function of the reference tree whose parameters have the same number and kinds but other names: alpha-renamed back to
+    the reference names (body and keyword arguments at its call sites), because the rules state what they expect as expressions
+    over the reference parameter names."""
+    sigs = table.get('signatures', {})
+    out = []
+    by_name = {}
+    for q, fi in prog.functions.items():
+        by_name.setdefault(fi.name if fi.name != '__init__' or fi.cls is None else fi.cls.name, []).append(fi)
+    for q, fi in sorted(prog.functions.items()):
+        sig = sigs.get(q)
+        if sig is None or not isinstance(fi.node, ast.FunctionDef):
+            continue
+        k = sig.index('*')
+        ref_pos, ref_kw = sig[:k], sig[k + 1:]
+        if len(ref_pos) != len(fi.params) or len(ref_kw) != len(fi.kwonly) or (ref_pos == fi.params and ref_kw == fi.kwonly):
+            continue
+        mapping = {n: o for n, o in zip(fi.params + fi.kwonly, ref_pos + ref_kw) if n != o}
+        if not mapping:
+            continue
+        if any(n in ref_pos + ref_kw for n in mapping):
+            continue            # a reference name sits at another position: a permutation, not a rename
+        used = {x.id for x in ast.walk(fi.node) if isinstance(x, ast.Name)} | {a.arg for a in ast.walk(fi.node) if isinstance(a, ast.arg)}
+        if any(o in used and o not in mapping for o in mapping.values()):
+            continue            # the reference name is taken by something else in this function
+        if len(set(mapping.values())) != len(mapping):
+            continue
+        for x in ast.walk(fi.node):
+            if isinstance(x, ast.Name) and x.id in mapping:
+                x.id = mapping[x.id]
+            elif isinstance(x, ast.arg) and x.arg in mapping:
+                x.arg = mapping[x.arg]
+        callee = fi.name if fi.name != '__init__' or fi.cls is None else fi.cls.name
+        rivals = [g for g in by_name.get(callee, ()) if g is not fi and set(g.params + g.kwonly) & set(mapping)]
+        if not rivals:
+            for m in prog.modules.values():
+                for c in ast.walk(m.tree):
+                    if isinstance(c, ast.Call) and c.keywords:
+                        f = c.func
+                        nm = f.attr if isinstance(f, ast.Attribute) else f.id if isinstance(f, ast.Name) else None
+                        if nm == callee:
+                            for kw in c.keywords:
+                                if kw.arg in mapping:
+                                    kw.arg = mapping[kw.arg]
+        out.append({'function': q, 'parameters': {n: o for n, o in mapping.items()}})
     return out
 
 
@@ -991,8 +1157,15 @@ class Inliner:
     # ---- driver
     def run(self):
         prog = self.prog
-        self.report['recovered_renames'] = recover_renames(prog, known_table())
+        tbl = known_table()
+        self.report['recovered_renames'] = recover_renames(prog, tbl)
+        more = recover_identifier_renames(prog, tbl)
+        if more:
+            self.report['recovered_renames'] = self.report['recovered_renames'] + more
         if self.report['recovered_renames']:
+            prog.reindex()
+        self.report['recovered_parameters'] = recover_parameter_renames(prog, tbl)
+        if self.report['recovered_parameters']:
             prog.reindex()
         self.report['inlined_constants'] = inline_new_constants(prog, known_constants())
         if self.report['inlined_constants']:
